@@ -8,7 +8,7 @@ SPEC = {
                   "non-epoch blocks; no negative component, locked <= stake. Twin blocks decide 'transactions never increase the total'.",
     "level_note": "negative values are observed as minted coins at the boundary (sign-dropping encoding) and directly in the pre-encoding check state of the twin",
     "rule": "case = one block boundary or one twin pair; distinct_nontrivial = distinct blocks (hash) of the monitored chains",
-    "jobs": [Job("chain", "verifsim", "^TestVerifC04$", shards=(8, 16), timeout=(900, 3600))],
+    "jobs": [Job("chain", "verifsim", "^TestVerifC04$", shards=(8, 16), timeout=(900, 7200))],
     "floors": {"twin_sequences_failed_midway_then_succeeded": 200, "ledger_checks": (1500, 20000), "twins": (300, 4000), "epochs_finished": (4, 40), "twins_forced_past_pool": (20, 200),
                "twin_type:Send": 50, "twin_type:Kill": 2, "twin_type:KillDelegator": 1, "twin_type:Deploy": 3, "twin_type:Call": 3,
                "twin_type:ReplenishStake": 3, "twin_type:Invite": 3, "twin_type:Burn": 3, "epoch_payout_ratio>=97%": 5,
